@@ -7,7 +7,7 @@
    This holds in particular in the stale-bookkeeping situations of the known findings F10/F10b-d. *)
 Require Import WD.Base.Prelude WD.Base.BStr WD.Model.SubEvents WD.Model.Emitter WD.Model.Fs WD.Model.Reader
                WD.Model.DelayQueue WD.Model.Grouping WD.Model.Pipeline WD.Model.PathTypes.
-Require Import WD.Proofs.NoCrashProofs WD.Proofs.PathProofs WD.Proofs.CoverProofs.
+Require Import WD.Proofs.ReaderFixProofs WD.Proofs.NoCrashProofs WD.Proofs.PathProofs WD.Proofs.CoverProofs.
 Local Open Scope N_scope.
 
 (* ------------------------------------------------------------------ find *)
@@ -173,7 +173,7 @@ Definition KW (k : kst) : Prop :=
   NoDup (map kw_wd (k_watches k)) /\ (forall x, In x (k_watches k) -> kw_wd x < k_next_wd k).
 
 Lemma ki_kw pending k r : KI pending k r -> KW k.
-Proof. intros [_ _ _ ND BW _]. split; assumption. Qed.
+Proof. intros [_ _ ND BW _]. split; assumption. Qed.
 
 Lemma kw_kadd k t p mask k' wd : KW k -> kadd_watch k t p mask = Some (k', wd) -> KW k'.
 Proof.
@@ -184,6 +184,21 @@ Proof.
   - rewrite map_app. simpl. apply NoDup_snoc; [exact ND|]. intros Hin. apply in_map_iff in Hin as [z [Hz Hin]].
     apply BW in Hin. lia.
   - intros y Hy. apply in_app_iff in Hy as [Hy|[<-|[]]]; [apply BW in Hy; lia | simpl; lia].
+Qed.
+
+Lemma kw_krm k wd : KW k -> KW (krm_watch k wd).
+Proof.
+  intros [ND BW]. unfold krm_watch. destruct (find (fun w => N.eqb (kw_wd w) wd) (k_watches k)); [|split; assumption].
+  split; simpl.
+  - apply nodup_map_filter. exact ND.
+  - intros x Hx. apply filter_In in Hx as [Hx _]. auto.
+Qed.
+
+Lemma root_watch_krm i w0 k wd : wd <> w0 -> root_watch i w0 k -> root_watch i w0 (krm_watch k wd).
+Proof.
+  intros Hne (kw & H & Hw). unfold krm_watch. destruct (find (fun w => N.eqb (kw_wd w) wd) (k_watches k)); [|exists kw; auto].
+  exists kw. split; [|exact Hw]. unfold watch_of_ino in *. simpl. apply find_filter_keep; [exact H|].
+  apply negb_true_iff. apply N.eqb_neq. congruence.
 Qed.
 
 Lemma rooted_length root p : rooted root p -> (length root <= length p)%nat.
@@ -207,16 +222,17 @@ Section ReaderRoot.
   Record RD (r : rstate) : Prop := {
     rd_pfw : alookup N.eqb w0 (pfw r) = Some root;
     rd_wfp : forall p, alookup beqb p (wfp r) = Some w0 -> p = root;
-    rd_mvf : forall c p, alookup N.eqb c (mvf r) = Some p -> p <> root }.
+    rd_mvf : forall c p, alookup N.eqb c (mvf r) = Some p -> p <> root;
+    rd_pend : forall c p, pend r = Some (c, p) -> p <> root }.
 
   Definition RR (k : kst) (r : rstate) : Prop := KW k /\ root_watch i w0 k /\ RD r.
 
   Lemma rd_bump r : RD r -> RD (bump r).
-  Proof. intros [A B D]. constructor; assumption. Qed.
+  Proof. intros [A B D E]. constructor; assumption. Qed.
 
   Lemma add_watch_rr r k p r' k' wd : RR k r -> add_watch C r k t p = Some (r', k', wd) -> RR k' r'.
   Proof.
-    intros (K & Hk & [A B D]) H. unfold add_watch in H.
+    intros (K & Hk & [A B D E0]) H. unfold add_watch in H.
     destruct (mem_nat (calls r) (c_faults C)); [discriminate|].
     destruct (kadd_watch k t p (c_mask C)) as [[k1 w1]|] eqn:E; [|discriminate]. inversion H; subst; clear H.
     destruct (root_watch_kadd root i w0 w k p (c_mask C) k' wd W Hroot (proj1 K) (proj2 K) Hk E) as [Hk' Hwd].
@@ -226,6 +242,7 @@ Section ReaderRoot.
       + rewrite wset_eq in Hq. inversion Hq; subst. now apply Hwd.
       + rewrite wset_neq in Hq by exact Hn. now apply B.
     - exact D.
+    - exact E0.
   Qed.
 
   Lemma sim_dirs_rr rt ds : forall r k acc r' k' acc',
@@ -263,7 +280,7 @@ Section ReaderRoot.
     intros Hs. induction keys as [|[p x] keys IH]; intros r H; cbn [rekey_loop]; [exact H|].
     destruct (starts (src ++ [sep]) p) eqn:Est; [|now apply IH].
     destruct (alookup beqb p (wfp r)) as [wd|] eqn:El; [|now apply IH]. apply IH.
-    destruct H as [A B D].
+    destruct H as [A B D E].
     assert (Hwd : wd <> w0).
     { intros ->. apply B in El. subst p. change (under src root = true) in Est.
       apply CoverProofs.under_length in Est. apply rooted_length in Hs. lia. }
@@ -275,20 +292,60 @@ Section ReaderRoot.
         * rewrite wrem_eq in Hq. discriminate.
         * rewrite wrem_neq in Hq by exact Hn2. now apply B.
     - exact D.
+    - exact E.
+  Qed.
+
+  (* _forget_tree(p) for a path p below the root never touches the root's entries nor its watch *)
+  Lemma forget_tree_rr p : rooted root p -> p <> root -> forall keys r k r' k',
+    RR k r -> forget_tree keys p r k = (r', k') -> RR k' r'.
+  Proof.
+    intros Hp Hpr. induction keys as [|[q x] keys IH]; simpl; intros r k r' k' H Hf.
+    - inversion Hf; subst. exact H.
+    - destruct (beqb q p || starts (p ++ [sep]) q) eqn:Em; [|eauto].
+      destruct (alookup beqb q (wfp r)) as [wd|] eqn:El; [|eauto].
+      destruct H as (K & Hk & [A B D E]).
+      assert (Hwd : wd <> w0).
+      { intros ->. apply B in El. subst q. apply orb_true_iff in Em as [Em|Em].
+        - apply beqb_eq in Em. congruence.
+        - change (under p root = true) in Em. apply CoverProofs.under_length in Em. apply rooted_length in Hp. lia. }
+      assert (Hrem : forall q0, alookup beqb q0 (aremove beqb q (wfp r)) = Some w0 -> q0 = root).
+      { intros q0 Hq. destruct (bytes_eq_dec q0 q) as [->|Hn]; [rewrite wrem_eq in Hq; discriminate|].
+        rewrite wrem_neq in Hq by exact Hn. now apply B. }
+      assert (H1 : RR k {| wfp := aremove beqb q (wfp r); pfw := pfw r; mvf := mvf r; calls := calls r; pend := pend r |}).
+      { split; [exact K|]. split; [exact Hk|]. constructor; simpl; auto. }
+      destruct (alookup N.eqb wd (pfw r)) as [q'|]; [|eauto].
+      destruct (beqb q' q); [|eauto].
+      eapply IH; [|exact Hf]. split; [apply kw_krm; exact K|]. split; [apply root_watch_krm; assumption|].
+      constructor; simpl; auto. rewrite prem_neq; auto.
+  Qed.
+
+  Lemma settle_pending_rr r k e r' k' :
+    path_inv root r -> RR k r -> settle_pending C r k e = (r', k') -> RR k' r'.
+  Proof.
+    intros Hi H Hs. unfold settle_pending in Hs. destruct (c_fix_moveout C); [|inversion Hs; subst; exact H].
+    destruct (pend r) as [[c p]|] eqn:Ep; [|inversion Hs; subst; exact H].
+    destruct H as (K & Hk & [A B D E]).
+    assert (H0 : RR k {| wfp := wfp r; pfw := pfw r; mvf := mvf r; calls := calls r; pend := None |}).
+    { split; [exact K|]. split; [exact Hk|]. constructor; simpl; auto. intros ? ? Hx. discriminate Hx. }
+    destruct (is_moved_to (k_mask e) && N.eqb (k_cookie e) c && amem N.eqb (k_wd e) (pfw r)); [inversion Hs; subst; exact H0|].
+    eapply forget_tree_rr; [| |exact H0|exact Hs].
+    - eapply pi_pend; eauto.
+    - eapply E; eauto.
   Qed.
 
   (* one raw record *)
-  Lemma read_one_rr e rest r k acc r' k' acc' :
+  Lemma read_one_body_rr e rest r k acc r' k' acc' :
     KI (e :: rest) k r -> PathInv r -> kraw_ok e -> RR k r ->
-    read_one C t (r, k, acc) e = Done (r', k', acc') -> RR k' r'.
+    read_one_body C t (r, k, acc) e = Done (r', k', acc') -> RR k' r'.
   Proof.
     intros HK Hi He (K & Hk & Hd) H.
     (* an IN_IGNORED record never carries the descriptor of the root's live watch *)
     assert (Hign : Emitter.is_ignored (k_mask e) = true -> k_wd e <> w0).
     { intros Hig Heq. destruct Hk as (kw & Hkw & Hw). apply NoCrashProofs.watch_of_ino_in in Hkw.
-      destruct HK as [_ _ NI _ _ _]. apply (NI e (or_introl eq_refl) Hig kw Hkw). congruence. }
-    unfold read_one in H.
-    destruct (alookup N.eqb (k_wd e) (pfw r)) as [wd_path|] eqn:Ewd; [|discriminate].
+      destruct HK as [_ NI _ _ _]. apply (NI e (or_introl eq_refl) Hig kw Hkw). congruence. }
+    unfold read_one_body in H.
+    destruct (alookup N.eqb (k_wd e) (pfw r)) as [wd_path|] eqn:Ewd.
+    2: { destruct (c_fix_moveout C); [|discriminate]. inversion H; subst. split; [exact K | split; assumption]. }
     assert (Hwd : rooted root wd_path).
     { apply PathProofs.alookup_in in Ewd as [wd' [Hin _]]. eapply pi_pfw; eauto. }
     set (src_path := match k_name e with [] => wd_path | _ :: _ => join wd_path (k_name e) end) in *.
@@ -296,15 +353,18 @@ Section ReaderRoot.
     assert (H1 : RR k1 r1).
     { destruct (is_moved_from (k_mask e)) eqn:Emf.
       - inversion EX; subst; clear EX. split; [exact K|]. split; [exact Hk|].
-        destruct Hd as [A B D]. constructor; simpl; auto.
+        destruct Hd as [A B D E].
+        assert (Hb : below root src_path).
+        { unfold src_path. destruct He as [Hv|[_ Hnp]].
+          - destruct (k_name e) eqn:En; [discriminate|]. rewrite <- En in *. now apply join_below.
+          - exfalso. unfold noparent in Hnp. repeat (apply andb_true_iff in Hnp as [Hnp ?]).
+            match goal with Hx : negb (is_moved_from _) = true |- _ => apply negb_true_iff in Hx; congruence end. }
+        assert (Hsr : src_path <> root) by (intros Heq; rewrite Heq in Hb; revert Hb; now apply not_below_root).
+        constructor; simpl; auto.
+        2: { intros c p Hp. destruct (c_fix_moveout C && c_recursive C && is_directory (k_mask e)); [|eapply E; eauto].
+             inversion Hp; subst. exact Hsr. }
         intros c p Hp. destruct (N.eq_dec c (k_cookie e)) as [->|Hn].
-        + rewrite pset_eq in Hp. inversion Hp; subst p. clear Hp.
-          assert (Hb : below root src_path).
-          { unfold src_path. destruct He as [Hv|[_ Hnp]].
-            - destruct (k_name e) eqn:En; [discriminate|]. rewrite <- En in *. now apply join_below.
-            - exfalso. unfold noparent in Hnp. repeat (apply andb_true_iff in Hnp as [Hnp ?]).
-              match goal with Hx : negb (is_moved_from _) = true |- _ => apply negb_true_iff in Hx; congruence end. }
-          intros Heq. rewrite Heq in Hb. revert Hb. now apply not_below_root.
+        + rewrite pset_eq in Hp. inversion Hp; subst p. exact Hsr.
         + rewrite pset_neq in Hp by exact Hn. eapply D; eauto.
       - destruct (is_moved_to (k_mask e)); [|inversion EX; subst; split; [exact K | split; assumption]].
         assert (Hmovein : forall (ev' : raw) r0 k0 ev0,
@@ -321,11 +381,11 @@ Section ReaderRoot.
         inversion EX; subst; clear EX. split; [exact K|]. split; [exact Hk|].
         assert (Hms : rooted root msrc).
         { apply PathProofs.alookup_in in Emv as [c' [Hin _]]. eapply pi_mvf; eauto. }
-        destruct Hd as [A B D].
+        destruct Hd as [A B D E].
         assert (Hmwd : mwd <> w0).
         { intros ->. apply B in Emw. eapply D; eauto. }
         assert (Hd' : RD {| wfp := aset beqb src_path mwd (aremove beqb msrc (wfp r));
-                            pfw := aset N.eqb mwd src_path (pfw r); mvf := mvf r; calls := calls r |}).
+                            pfw := aset N.eqb mwd src_path (pfw r); mvf := mvf r; calls := calls r; pend := pend r |}).
         { constructor; simpl.
           - rewrite pset_neq; auto.
           - intros q Hq. destruct (bytes_eq_dec q src_path) as [->|Hn].
@@ -333,7 +393,8 @@ Section ReaderRoot.
             + rewrite wset_neq in Hq by exact Hn. destruct (bytes_eq_dec q msrc) as [->|Hn2].
               * rewrite wrem_eq in Hq. discriminate.
               * rewrite wrem_neq in Hq by exact Hn2. now apply B.
-          - exact D. }
+          - exact D.
+          - exact E. }
         destruct (c_recursive C); [now apply rekey_loop_rd | exact Hd']. }
     clear EX.
     match type of H with
@@ -343,13 +404,14 @@ Section ReaderRoot.
     { destruct (Emitter.is_ignored (k_mask e)) eqn:Eig; [|inversion E2; subst; exact H1].
       specialize (Hign eq_refl).
       destruct (alookup N.eqb (k_wd e) (pfw r1)) as [path|]; [|discriminate].
-      destruct H1 as (K1 & Hk1 & [A B D]).
-      assert (Hrp : RD {| wfp := wfp r1; pfw := aremove N.eqb (k_wd e) (pfw r1); mvf := mvf r1; calls := calls r1 |}).
+      destruct H1 as (K1 & Hk1 & [A B D E]).
+      assert (Hrp : RD {| wfp := wfp r1; pfw := aremove N.eqb (k_wd e) (pfw r1); mvf := mvf r1; calls := calls r1;
+                          pend := pend r1 |}).
       { constructor; simpl; auto. rewrite prem_neq; auto. }
       cbn [wfp pfw mvf calls] in E2.
       destruct (alookup beqb path (wfp r1)) as [x|].
       - destruct (N.eqb x (k_wd e)); inversion E2; subst; (split; [exact K1 | split; [exact Hk1|]]); [|exact Hrp].
-        destruct Hrp as [A' B' D']. constructor; simpl in *; auto.
+        destruct Hrp as [A' B' D' E']. constructor; simpl in *; auto.
         intros q Hq. destruct (bytes_eq_dec q path) as [->|Hn].
         + rewrite wrem_eq in Hq. discriminate.
         + rewrite wrem_neq in Hq by exact Hn. now apply B'.
@@ -359,6 +421,21 @@ Section ReaderRoot.
       + eapply simulate_rr; [|exact H]. eapply add_watch_rr; eauto.
       + inversion H; subst. destruct H2 as (K2 & Hk2 & Hd2). split; [exact K2 | split; [exact Hk2 | now apply rd_bump]].
     - inversion H; subst. exact H2.
+  Qed.
+
+  Hypothesis Hfix_ign : c_fix_ignored C = true.
+  Hypothesis Hfix_sim : c_fix_simulate C = true.
+  Hypothesis Hfix_mo : c_fix_moveout C = true.
+
+  Lemma read_one_rr e rest r k acc r' k' acc' :
+    KI (e :: rest) k r -> PathInv r -> kraw_ok e -> RR k r ->
+    read_one C t (r, k, acc) e = Done (r', k', acc') -> RR k' r'.
+  Proof.
+    intros HK Hi He HR H. unfold read_one in H. destruct (settle_pending C r k e) as [r0 k0] eqn:Es.
+    eapply read_one_body_rr; [| | exact He | | exact H].
+    - eapply settle_pending_ki; eauto.
+    - eapply settle_pending_inv; eauto.
+    - eapply settle_pending_rr; eauto.
   Qed.
 End ReaderRoot.
 
@@ -370,6 +447,7 @@ Section BatchRoot.
   Hypothesis Hsep : last_is_sep root = false.
   Hypothesis Hfix_ign : c_fix_ignored C = true.
   Hypothesis Hfix_sim : c_fix_simulate C = true.
+  Hypothesis Hfix_mo : c_fix_moveout C = true.
   Variables (i w0 : N) (w : world).
   Hypothesis W : wf_fs w.
   Hypothesis Hnames : fs_names_ok (w_fs w).
@@ -382,7 +460,7 @@ Section BatchRoot.
     induction b as [|e b IH]; intros r k acc r' k' acc' HK Hi Ha Hb HR H; cbn [read_batch] in H.
     - inversion H; subst. exact HR.
     - inversion Hb as [|? ? He Hb']; subst.
-      destruct (read_one_ki C Hfix_ign Hfix_sim (w_fs w) e b r k acc HK) as [r1 [k1 [acc1 [E1 HK1]]]].
+      destruct (read_one_ki C Hfix_ign Hfix_sim Hfix_mo (w_fs w) e b r k acc HK) as [r1 [k1 [acc1 [E1 HK1]]]].
       rewrite E1 in H.
       destruct (PathProofs.read_one_inv C Hne Hsep (w_fs w) r k acc e r1 k1 acc1 Hnames Hi Ha He E1) as [Hi1 Ha1].
       eapply IH; [exact HK1 | exact Hi1 | exact Ha1 | exact Hb' | | exact H].
@@ -392,13 +470,15 @@ Section BatchRoot.
   (* what "the root's descriptor maps to the root" buys: a record the kernel delivers on that descriptor about a
      named entry (not a rename half, not IN_IGNORED, not a new sub-directory) is translated under root/<name> *)
   Lemma root_probe r k acc m c n ns :
+    pend r = None ->
     alookup N.eqb w0 (pfw r) = Some root ->
     is_moved_from m = false -> is_moved_to m = false -> Emitter.is_ignored m = false ->
     is_directory m && is_create m = false ->
     read_one C (w_fs w) (r, k, acc) {| k_wd := w0; k_mask := m; k_cookie := c; k_name := n :: ns |} =
     Done (r, k, acc ++ [{| r_wd := w0; r_mask := m; r_cookie := c; r_name := n :: ns; r_path := join root (n :: ns) |}]).
   Proof.
-    intros Hp H1 H2 H3 H4. unfold read_one. cbn [k_wd k_mask k_cookie k_name]. rewrite Hp, H1, H2, H3.
+    intros Hpd Hp H1 H2 H3 H4. rewrite ReaderFixProofs.read_one_body_eq by exact Hpd.
+    unfold read_one_body. cbn [k_wd k_mask k_cookie k_name]. rewrite Hp, H1, H2, H3.
     rewrite <- andb_assoc, H4, andb_false_r. reflexivity.
   Qed.
 End BatchRoot.
@@ -412,6 +492,7 @@ Section PipeRoot.
   Hypothesis Hsep : last_is_sep root = false.
   Hypothesis Hfix_ign : c_fix_ignored C = true.
   Hypothesis Hfix_sim : c_fix_simulate C = true.
+  Hypothesis Hfix_mo : c_fix_moveout C = true.
 
   Definition op_ok (o : op) : Prop := op_np o /\ op_names_ok o /\ keeps_root root o.
 
@@ -427,7 +508,7 @@ Section PipeRoot.
   Proof.
     intros [H1 H2 H3 H4 H5] Ha H.
     assert (H1' : PI s').
-    { destruct (pstep_safe P Hfix_ign Hfix_sim s a H1) as [s2 [o2 [E HP]]]. rewrite H in E. now inversion E; subst. }
+    { destruct (pstep_safe P Hfix_ign Hfix_sim Hfix_mo s a H1) as [s2 [o2 [E HP]]]. rewrite H in E. now inversion E; subst. }
     assert (H2' : PInv P s').
     { eapply pstep_inv; [exact Hne | exact Hsep | exact H2 | | exact H]. intros o Ho. apply Ha in Ho. apply Ho. }
     constructor; [exact H1' | exact H2' | | |]; destruct a as [o|n| |d]; cbn [pstep] in H.
@@ -469,9 +550,9 @@ Section PipeRoot.
       destruct (read_batch C (w_fs (p_world s)) (p_r s, k0, []) (firstn n (k_queue (p_k s)))) as [[[r' k'] evs]|] eqn:E;
         [|discriminate].
       assert (HR : RR C i w0 k' r').
-      { eapply (read_batch_rr C Hne Hsep Hfix_ign Hfix_sim i w0 (p_world s) H3); [| exact H4 | | | | | | exact E].
+      { eapply (read_batch_rr C Hne Hsep Hfix_ign Hfix_sim Hfix_mo i w0 (p_world s) H3); [| exact H4 | | | | | | exact E].
         - apply H2.
-        - unfold PI in H1. destruct H1 as [L Q0 NI ND BW BQ]. simpl in *. constructor; simpl; rewrite ?firstn_skipn; auto.
+        - unfold PI in H1. destruct H1 as [L NI ND BW BQ]. simpl in *. constructor; simpl; rewrite ?firstn_skipn; auto.
         - apply H2.
         - constructor.
         - apply Forall_firstn'. apply H2.
@@ -508,6 +589,7 @@ Section PipeRoot.
       - constructor; simpl.
         + reflexivity.
         + intros p Hq. destruct (beqb p root) eqn:Eb; [now apply beqb_eq in Eb | discriminate].
+        + intros c p Hq. discriminate.
         + intros c p Hq. discriminate. }
     destruct (c_recursive C); [|inversion H; subst; exact H1].
     clear Ea. revert r1 k1 H1 H. generalize (walk_dirs (w_fs w) root). intros ps.
